@@ -249,13 +249,20 @@ def classify_stderr(rc, err):
     """exception class of a failed run, from the exit status and the last line of stderr"""
     if rc == 0: return None
     if rc == 2: return "EExitUsage"
-    last = [l for l in err.replace("\r", "\n").splitlines() if l.strip()]
+    lines = err.replace("\r", "\n").splitlines()
+    # the exception line is the first unindented line after the last "Traceback" header (messages may span lines)
+    tb = max((i for i, l in enumerate(lines) if "Traceback (most recent call last)" in l), default=None)
+    if tb is not None:
+        for l in lines[tb + 1:]:
+            if l and not l[0].isspace():
+                m = re.match(r"([\w.]+)(:|$)", l)
+                if m:
+                    n = m.group(1).split(".")[-1]
+                    return G.EXN.get(n, "other:" + n)
+                return "other:" + l[:60]
+    last = [l for l in lines if l.strip()]
     last = last[-1] if last else ""
-    if "is not supported" in last and not re.match(r"[\w.]+(Error|Exception)\b", last): return "EExitUnsupported"
-    m = re.match(r"([\w.]+):", last) or re.match(r"([\w.]+)$", last)
-    if m:
-        n = m.group(1).split(".")[-1]
-        return G.EXN.get(n, "other:" + n)
+    if "is not supported" in last: return "EExitUnsupported"
     return "other:" + last[:60]
 
 
